@@ -376,7 +376,7 @@ class Mesh:
         boundaries = {}
 
         for name, data in cell_data.items():
-            subnames = name.split(":")
+            subnames = name.split(":", 2)
             if subnames[0] != "skfem":
                 continue
             if subnames[1] == "s":
